@@ -51,6 +51,9 @@ from crosshair.util import (
 )
 
 
+from vtools import inst as _inst  # noqa: E402
+
+
 def assume(cond: Any) -> None:
     """Precondition: abandon the current path (it is not counted) unless cond."""
     if not cond:
@@ -151,6 +154,7 @@ def explore(
         cex: Optional[Dict[str, Any]] = None
         with condition_parser([AnalysisKind.PEP316]), Patched(), COMPOSITE_TRACER, NoTracing(), StateSpaceContext(space):
             try:
+                _inst.FRESH.clear()
                 pre_args = gen_args(sig)
                 space.checkpoint()
                 args = deepcopyext(pre_args, CopyMode.BEST_EFFORT, {})
@@ -169,6 +173,7 @@ def explore(
                     with ResumedTracing():
                         space.detach_path(exc)
                     cex = deep_realize(dict(pre_args.arguments))
+                    cex.update(deep_realize(dict(_inst.FRESH)))
                     failure = "exception %s: %s" % (type(exc).__name__, _safe_str(exc))
                     failure += " @ " + "".join(tb.format()[-3:])[-600:]
                     status = VerificationStatus.REFUTED
@@ -176,13 +181,14 @@ def explore(
                     with ResumedTracing():
                         space.detach_path()
                     cex = deep_realize(dict(pre_args.arguments))
+                    cex.update(deep_realize(dict(_inst.FRESH)))
                     failure = "harness returned %r" % (deep_realize(ret),)
                     status = VerificationStatus.REFUTED
                 else:
                     status = VerificationStatus.CONFIRMED
                     out.confirmed_paths += 1
                     if on_confirmed is not None:
-                        on_confirmed(pre_args.arguments, ret)
+                        on_confirmed({**pre_args.arguments, **_inst.FRESH}, ret)
             except IgnoreAttempt:
                 status = None
                 out.ignored_paths += 1
